@@ -117,7 +117,14 @@ func Range[M ~map[K]V, K comparable, V any](m M) iter.Seq2[K, V] {
 		if n >= 2 {
 			strs := make([]string, n)
 			for i, k := range keys {
-				strs[i] = keyString(reflect.ValueOf(&k).Elem())
+				switch x := any(k).(type) {
+				case string:
+					strs[i] = "s:" + x
+				case fmt.Stringer:
+					strs[i] = "S:" + x.String()
+				default:
+					strs[i] = keyString(reflect.ValueOf(&k).Elem())
+				}
 			}
 			idx := make([]int, n)
 			for i := range idx {
